@@ -515,14 +515,14 @@ async fn setup(case: &Case, inboxes: &[Inbox]) {
         }
         // a service registered through the builder's own `register()` terminal (only where it cannot be
         // refused: the first registered slot of its kind)
-        if let SpawnSpec::Register { builder: Some(m) } = spec.spawn {
+        if let SpawnSpec::Register { builder: Some(m), timeout } = spec.spawn {
             let first = !case.actors[..slot].iter().any(|s| s.kind == spec.kind && matches!(s.spawn, SpawnSpec::Register { .. }));
             if first && spec.peer.is_none() {
                 let beh = std::sync::Arc::new(spec.beh.clone());
                 let got = if spec.kind == 0 {
-                    crate::probe::register_via_builder::<0>(slot, beh, m).await.map(|(a, _)| AnyAddr::A0(a))
+                    crate::probe::register_via_builder::<0>(slot, beh, m, timeout).await.map(|(a, _)| AnyAddr::A0(a))
                 } else {
-                    crate::probe::register_via_builder::<1>(slot, beh, m).await.map(|(a, _)| AnyAddr::A1(a))
+                    crate::probe::register_via_builder::<1>(slot, beh, m, timeout).await.map(|(a, _)| AnyAddr::A1(a))
                 };
                 log(EvKind::Note(format!("setup-register actor={slot} ok={}", got.is_ok())));
                 if let Ok(addr) = got {
@@ -1308,7 +1308,7 @@ where
         let actor = with_case(|c| c.new_actor(K, Origin::RegOp));
         let beh = with_case(|c| std::sync::Arc::new(c.case.default_beh.get(K as usize).cloned().unwrap_or_default()));
         let mailbox = if actor % 3 == 0 { Mailbox::Bounded(2) } else { Mailbox::Unbounded };
-        return match crate::probe::register_via_builder::<K>(actor, beh, mailbox).await {
+        return match crate::probe::register_via_builder::<K>(actor, beh, mailbox, None).await {
             Ok((me_addr, replaced)) => {
                 table.push(Some(new_held(Some(me), actor, H::Addr(<Probe<K> as Wrap>::addr(me_addr)))));
                 let replaced = match replaced {
